@@ -228,6 +228,23 @@ let dispatch (cmd : string) (t : tree) : tree =
       (match SysRun.q_sys_eval tab ord e0 (r_list r_nat targets) (r_list r_nat ask) with
        | None -> L []
        | Some vals -> L [w_list (w_opt w_q) vals])
+  | "graph_plan", [comps; plans] ->
+      (* comps: per component [inputs, outputs] in listing order; plans: observed evaluation plans (groups of positions);
+         returns [edges, groups, [plan accepted? ...]] *)
+      let cs = r_list (r_pair (r_list r_nat) (r_list r_nat)) comps in
+      let plans = r_list (r_list (r_list r_nat)) plans in
+      L [w_list (fun (a, b) -> L [w_nat a; w_nat b]) (Graph.edges cs); w_list (w_list w_nat) (Graph.system_sccs cs);
+         w_list (fun p -> w_bool (Graph.system_plan_ok cs p)) plans]
+  | "bounds_run", [kind; guess; est; update; steps] ->
+      (* kind: [] (minmax) | [a, b] (x_raw = a x + b); guess: [lo, hi]; est: [] | [obs]; obs: list of [] (NaN) | [value];
+         returns [start domain, [domain after each step]] *)
+      let k = match as_list kind with [] -> Bounds.NMinmax | [a; b] -> Bounds.NAffine (r_q a, r_q b) | _ -> failwith "kind" in
+      let rdom t = match as_list t with [a; b] -> (r_q a, r_q b) | _ -> failwith "domain" in
+      let robs t = r_list (fun c -> match as_list c with [] -> None | [v] -> Some (r_q v) | _ -> failwith "obs") t in
+      let est = match as_list est with [] -> None | [o] -> Some (robs o) | _ -> failwith "est" in
+      let wdom (a, b) = L [w_q a; w_q b] in
+      let (start, ds) = Bounds.fit_bounds est (r_bool update) k (rdom guess) (r_list robs steps) in
+      L [wdom start; w_list wdom ds]
   | "select_rows", [req; rows] ->
       (* rows: per stored point a list of [] (missing) | [value]; returns [rows handed out, rows the former rule handed out] *)
       let rrow t = r_list (fun c -> match as_list c with [] -> None | [v] -> Some (r_z v) | _ -> failwith "cell") t in
